@@ -205,7 +205,7 @@ def install(ip):
         (re.compile(r'impl [iu]\d+>::from_str_radix$'), m_from_str_radix), (re.compile(r'impl str>::parse$'), m_parse),
         (re.compile(r'Argument::new_(display|debug)$'), m_argument_new), (re.compile(r'^Arguments::(new|from_str)'), m_arguments_new),
         (re.compile(r'^<[A-Z_0-9]+ as Deref>::deref$'), m_lazy_deref),
-        (re.compile(r'as Index<usize>>::index$'), m_vec_index),
+        (re.compile(r'as Index(Mut)?<usize>>::index(_mut)?$'), m_vec_index),
         (re.compile(r'as Borrow<.*>>::borrow$'), m_borrow),
         (re.compile(r' as ToString>::to_string$'), m_to_string),
     ]
@@ -267,3 +267,41 @@ def install2(ip):
         (re.compile(r'^Arc::new$'), m_arc_new), (re.compile(r'^<Arc<.*> as Deref>::deref$'), m_arc_deref),
         (re.compile(r'^Atomic::new$'), m_atomic_new), (re.compile(r'^Atomic::load$'), m_atomic_load), (re.compile(r'^Atomic::(store|swap)$'), m_atomic_store),
     ]
+
+# ---- third batch
+def unref(v):
+    while isinstance(v, Ref): v = v.cell.v
+    return v
+def m_dur_from_nanos(ip, c, a): return Agg('Duration', None, [Cell(a[0])])
+def m_dur_from_millis(ip, c, a): return Agg('Duration', None, [Cell(a[0] * 1000000 if not is_sym(a[0]) else T("(* %s 1000000)", 'Int', a[0].s))])
+def m_dur_as_nanos(ip, c, a): return unref(a[0]).fields[0].v
+def m_dur_as_millis(ip, c, a):
+    n = unref(a[0]).fields[0].v
+    return n // 1000000 if not is_sym(n) else T("(div %s 1000000)", 'Int', n.s)
+def m_result_expect(ip, c, a): return m_unwrap(ip, c, a)
+def clone_value(ip, v):
+    if isinstance(v, Agg):
+        if v.ty == 'Arc': return v
+        if v.ty in ('Vec',): return Agg('Vec', None, [Cell([Cell(clone_value(ip, x.v)) for x in v.fields[0].v])])
+        if v.ty in ('Option', 'Result', 'tuple'): return Agg(v.ty, v.variant, [Cell(clone_value(ip, x.v)) for x in v.fields], v.names)
+        d = ip.resolve("<%s as Clone>::clone" % v.ty)
+        if d is not None: return ip.call_fn(d, [Ref(Cell(v))])
+        return Agg(v.ty, v.variant, [Cell(clone_value(ip, x.v)) for x in v.fields], v.names)
+    return v
+def m_clone_generic(ip, c, a): return clone_value(ip, unref(a[0]))
+def m_vec_insert_at(ip, c, a): vec_of(a[0]).fields[0].v.insert(a[1], Cell(a[2])); return UNIT
+def m_option_is_some(ip, c, a): return unref(a[0]).variant == 'Some'
+def m_option_is_none(ip, c, a): return unref(a[0]).variant == 'None'
+def m_i32_to_string(ip, c, a):
+    v = unref(a[0])
+    if not is_sym(v): return str(v)
+    return T('(ite (< %s 0) (str.++ "-" (str.from_int (- %s))) (str.from_int %s))', 'String', v.s, v.s, v.s)
+def install3(ip):
+    ip.pattern_models = [
+        (re.compile(r'^Duration::from_nanos$'), m_dur_from_nanos), (re.compile(r'^Duration::from_millis$'), m_dur_from_millis),
+        (re.compile(r'^Duration::as_nanos$'), m_dur_as_nanos), (re.compile(r'^Duration::as_millis$'), m_dur_as_millis),
+        (re.compile(r'^<(String|str) as Clone>::clone$'), m_clone),
+        (re.compile(r'^<(Vec|Option|Result|Arc)<.*> as Clone>::clone$'), m_clone_generic),
+        (re.compile(r'^<[iu](\d+|size) as ToString>::to_string$'), m_i32_to_string),
+        (re.compile(r'^Option::is_some$'), m_option_is_some), (re.compile(r'^Option::is_none$'), m_option_is_none),
+    ] + ip.pattern_models
